@@ -1,12 +1,21 @@
 //! Monitors for the Push VM properties: C01–C05 and the run-time half of C19.
 
+mod c01;
+mod c02;
+mod c03;
 mod c04;
+mod pushvm;
+mod realrun;
 
 use vh_core::Args;
 
 fn main() {
     let args = Args::parse();
     let code = match args.prop.as_str() {
+        "C01" => c01::run(&args),
+        "C02" => c02::run(&args),
+        "C03" => c03::run(&args),
+        "C03-child" => c03::child(&args),
         "C04" => c04::run(&args),
         other => {
             eprintln!("vh-push: unknown property {other}");
